@@ -31,6 +31,8 @@ func checkC14(ctx *Ctx, r *Report) {
 	c14ConverterNames(ctx, r)
 	c14GuardsAndTypes(ctx, r)
 	c14ThirdRound(ctx, r)
+	c14ValueGuards(ctx, r)
+	c14DateTimeFormatter(ctx, r)
 }
 
 func c14FreshGenerator(ctx *Ctx, r *Report) {
@@ -593,4 +595,100 @@ func c14ThirdRound(ctx *Ctx, r *Report) {
 			"ConverterGenerator."+name+" no longer filters option.Assignments by generatedPaths while its sibling does: the form of the conversion (one call per list item or one call with the list) is chosen from an assignment that will not be converted — the emitted call does not match the option's signature")
 	}
 	r.Count("functions deciding on the assignments left to convert", n)
+}
+
+// c14ValueGuards: guardForAssignments adds, next to the nil guards, *value* guards: "not empty" for strings and lists, "not
+// equal to the default" for scalars. (a) "not empty" means "what a fresh builder leaves" only when the field has no
+// default: with a default ("hello", ["a","b"]) the empty value differs from what the builder constructs and must be
+// reproduced — the emptiness guards must be conditioned on Default == nil. (b) the guards of all assignments of an option
+// are conjoined around the single option call: for an option with several arguments one argument at its default (or
+// empty) suppresses the whole call, the other arguments included — value guards must not be added for options that assign
+// more than one argument. Both are violated by the pinned tree (recorded findings).
+func c14ValueGuards(ctx *Ctx, r *Report) {
+	fn := ctx.LookupMethod("internal/languages", "ConverterGenerator", "guardForAssignments")
+	fd, p := ctx.DeclOf(fn)
+	if fd == nil {
+		r.Undecided("anchor lost: ConverterGenerator.guardForAssignments")
+		return
+	}
+	info := p.TypesInfo
+	parents := parentMap(fd)
+	emptinessUnguarded, n := "", 0
+	multiArgAware := false
+	ast.Inspect(fd.Body, func(m ast.Node) bool {
+		cl, ok := m.(*ast.CompositeLit)
+		if !ok {
+			return true
+		}
+		if nt := namedOf(info.TypeOf(cl)); nt == nil || nt.Obj().Name() != "MappingGuard" {
+			return true
+		}
+		op, val := "", ""
+		for _, el := range cl.Elts {
+			if kv, ok := el.(*ast.KeyValueExpr); ok {
+				if id, ok := kv.Key.(*ast.Ident); ok {
+					switch id.Name {
+					case "Op":
+						op = exprString(kv.Value)
+					case "Value":
+						val = exprString(kv.Value)
+					}
+				}
+			}
+		}
+		isEmptiness := strings.HasSuffix(op, "MinLengthOp") || (strings.HasSuffix(op, "NotEqualOp") && val == `""`)
+		isValueGuard := isEmptiness || (strings.HasSuffix(op, "NotEqualOp") && strings.Contains(val, "Default"))
+		if !isValueGuard {
+			return true
+		}
+		n++
+		conds := ""
+		for _, ce := range enclosingConds(parents, cl) {
+			if !ce.inElse {
+				conds += exprString(ce.stmt.Cond) + " ; "
+			}
+		}
+		if isEmptiness && !strings.Contains(conds, "Default == nil") && emptinessUnguarded == "" {
+			emptinessUnguarded = op + " " + val
+		}
+		if strings.Contains(conds, "len(") && (strings.Contains(conds, "ssignments") || strings.Contains(conds, "Args")) {
+			multiArgAware = true
+		}
+		return true
+	})
+	r.Count("value guards built by guardForAssignments", n)
+	r.Floor("value guards built by guardForAssignments", 3)
+	r.Check(emptinessUnguarded == "", "flow/emptiness-guard-only-without-default", "ConverterGenerator.guardForAssignments emptiness guards", fd.Pos(), "only for fields without a default",
+		"guardForAssignments adds the guard `"+emptinessUnguarded+"` whatever the field's default: with `greeting: string | *\"hello\"` the value \"\" is not what a fresh builder holds, yet no Greeting(\"\") call is printed — the rebuilt object has \"hello\"")
+	r.Check(multiArgAware, "flow/value-guards-per-argument", "ConverterGenerator.guardForAssignments options with several arguments", fd.Pos(), "value guards are not conjoined across the arguments of one option",
+		"guardForAssignments adds value guards (not empty / not the default) for every assignment of the option and they are conjoined around the single call: `Point(x, y)` with y at its default prints no Point(...) call at all — x is lost")
+}
+
+// c14DateTimeFormatter: the Go converter prints scalars with fmt.Sprintf("%#v", v). For a date-time field v is a
+// time.Time, whose GoString is only valid Go for UTC and Local ("time.Location(\"\")" otherwise): the scalar case of the
+// value formatter needs a case for the date-time hint. Violated by the pinned tree (recorded finding).
+func c14DateTimeFormatter(ctx *Ctx, r *Report) {
+	ts, err := loadTemplates(ctx, "golang")
+	if err != nil {
+		r.Undecided("cannot parse golang templates: %v", err)
+		return
+	}
+	tree := ts.trees["value_formatter"]
+	if tree == nil {
+		r.Undecided("anchor lost: template value_formatter")
+		return
+	}
+	handles := false
+	walkTmpl(tree.Root, func(m parse.Node) bool {
+		if in, ok := m.(*parse.IfNode); ok {
+			c := in.Pipe.String()
+			if strings.Contains(c, "datetime") || strings.Contains(c, "DateTime") || strings.Contains(c, "time") {
+				handles = true
+			}
+		}
+		return true
+	})
+	r.Count("value formatters of the Go converter", 1)
+	r.Check(handles, "skeleton/converter-datetime-formatter", "golang converter value_formatter date-time case", token.NoPos, "date-time values are not printed with %#v",
+		ts.file["value_formatter"]+": every scalar is printed with fmt.Sprintf(\"%#v\", …), time.Time included: for a value with a zone offset the converter prints `time.Date(…, time.Location(\"\"))`, which does not compile")
 }
